@@ -55,7 +55,7 @@ func drawTaxaNames(rt *rapid.T, n int) []string {
 	case 8:
 		// characters that are ordinary in a label but special somewhere else: format verbs, multi-byte runes, XML and shell characters
 		var out []string
-		marks := []string{"%d", "é", "日本", "#", "@", "+", "|", "%s%", "&", "ß_"}
+		marks := []string{"%d", "é", "日本", "#", "@", "+", "~", "%s%", "&", "ß_"} // no "|": the model joins the names of a split with it
 		for i := 0; i < n; i++ {
 			m := marks[(i+salt)%len(marks)]
 			if i%2 == 0 {
